@@ -129,11 +129,13 @@ def run(rep, tier, seed, replay):
         rep.violation("the access table could not be regenerated from /repo", dict(log=log), no_input=True)
     else:
         ok, out = genproof.compile_obligation("C16_locks.v")
-        rep.extra["lock_obligation"] = "C16_queue_fields_locked " + ("checked" if ok else "FAILED")
+        thm = genproof.failed_theorem("C16_locks.v", out) if not ok else ""
+        rep.extra["lock_obligation"] = ("C16_queue_fields_locked, C16_timer_flush_one_critical_section, C16_queue_one_critical_section, C16_flush_sends: "
+                                        + ("checked" if ok else "FAILED at " + thm))
         if not ok:
             sites = genproof.unlocked_sites(["pkg/event.EventQueue.q"], "EventQueue.m")
-            rep.violation("generated obligation C16_queue_fields_locked no longer checks: the queue's pending slice is accessed outside eq.m",
-                          dict(unlocked_sites=sites, theorem="coq/theories/Properties/C16_locks.v", coqc=out[-800:]), no_input=not rep.violations)
+            rep.violation("generated obligation %s no longer checks: the pending batch is read, handed over or replaced outside one critical section of eq.m" % (thm or "in C16_locks.v"),
+                          dict(failed_theorem=thm, unlocked_sites=sites, theorem_file="coq/theories/Properties/C16_locks.v", coqc=out[-800:]), no_input=not rep.violations)
     rep.extra["disagreements_with_model"] = nbad
     rep.extra["race_detector"] = binary == "hx_race"
     rep.sample(dict(case=cases[len(cases) // 2], impl=impl[len(cases) // 2]))
